@@ -75,6 +75,8 @@ var ConcreteURI = map[string]string{
 	"plcx":     "https://cx.example.test/bye?x=1",
 	"plcj":     "https://cj.example.test/bye",
 	"plcxNear": "https://cx.example.test/bye.x=1",
+	"plcn":     "http://127.0.0.1:7777/cn/bye",
+	"plcnEvil": "https://evil.example.test/cn/bye",
 	"ucwG":     "https://cw.example.test/cbs/one",
 	"plcwG":    "https://cw.example.test/byes/one",
 	"":         "",
